@@ -10,8 +10,8 @@ PROPERTY = "C19"
 LEVEL = "model_checking"
 TECHNIQUE = ("typestate analysis (conditional constant propagation with explicit abstract-state enumeration) of the MIR of both "
              "WaitUntil poll bodies over the `state` field, children opaque; constructor / extension-method data-flow checks")
-CONFIGS_QUICK = ["std"]
-CONFIGS_THOROUGH = ["std", "alloc", "core"]
+CONFIGS_QUICK = ["std", "std-rel"]
+CONFIGS_THOROUGH = ["std", "alloc", "core", "std-rel", "alloc-rel", "core-rel"]
 EXPLANATION = (
     "Both WaitUntil poll bodies are finite-state in their `state` field and treat the deadline and the inner future/stream as "
     "opaque children, so an abstract run over (block, state value, deadline-resolved-in-this-call, inner-polled) from every entry "
